@@ -50,11 +50,9 @@ import (
 	"go/types"
 	"log"
 	"os"
-	"reflect"
 	"runtime"
 	"slices"
 	"strings"
-	"sync/atomic"
 	"unsafe"
 	_ "unsafe"
 
@@ -208,6 +206,7 @@ func visitInstr(fr *frame, instr ssa.Instruction) continuation {
 		// no-op
 
 	case *ssa.UnOp:
+		unopFrame = fr
 		fr.set(instr, unop(instr, fr.get(instr.X)))
 
 	case *ssa.BinOp:
@@ -263,7 +262,7 @@ func visitInstr(fr *frame, instr ssa.Instruction) continuation {
 		panic(targetPanic{fr.get(instr.X)})
 
 	case *ssa.Send:
-		fr.get(instr.Chan).(chan value) <- fr.get(instr.X)
+		sched.send(fr, fr.get(instr.Chan).(*ichan), fr.get(instr.X))
 
 	case *ssa.Store:
 		store(mustDeref(instr.Addr.Type()), fr.get(instr.Addr).(*value), fr.get(instr.Val))
@@ -296,14 +295,12 @@ func visitInstr(fr *frame, instr ssa.Instruction) continuation {
 
 	case *ssa.Go:
 		fn, args := prepareCall(fr, &instr.Call)
-		atomic.AddInt32(&fr.i.goroutines, 1)
-		go func() {
-			call(fr.i, nil, instr.Pos(), fn, args)
-			atomic.AddInt32(&fr.i.goroutines, -1)
-		}()
+		i, pos := fr.i, instr.Pos()
+		sched.spawn(fr, func() { call(i, nil, pos, fn, args) })
 
 	case *ssa.MakeChan:
-		fr.set(instr, make(chan value, asInt64(fr.get(instr.Size))))
+		sched.nchan++
+		fr.set(instr, &ichan{id: sched.nchan, cap: int(asInt64(fr.get(instr.Size)))})
 
 	case *ssa.Alloc:
 		var addr *value
@@ -408,40 +405,24 @@ func visitInstr(fr *frame, instr ssa.Instruction) continuation {
 		log.Fatal("unreachable") // phis are processed at block entry
 
 	case *ssa.Select:
-		var cases []reflect.SelectCase
-		if !instr.Blocking {
-			cases = append(cases, reflect.SelectCase{
-				Dir: reflect.SelectDefault,
-			})
-		}
+		var cases []selCase
 		for _, state := range instr.States {
-			var dir reflect.SelectDir
-			if state.Dir == types.RecvOnly {
-				dir = reflect.SelectRecv
-			} else {
-				dir = reflect.SelectSend
+			c := selCase{send: state.Dir != types.RecvOnly}
+			if ch := fr.get(state.Chan); ch != nil {
+				c.ch = ch.(*ichan)
 			}
-			var send reflect.Value
 			if state.Send != nil {
-				send = reflect.ValueOf(fr.get(state.Send))
+				c.val = fr.get(state.Send)
 			}
-			cases = append(cases, reflect.SelectCase{
-				Dir:  dir,
-				Chan: reflect.ValueOf(fr.get(state.Chan)),
-				Send: send,
-			})
+			cases = append(cases, c)
 		}
-		chosen, recv, recvOk := reflect.Select(cases)
-		if !instr.Blocking {
-			chosen-- // default case should have index -1.
-		}
+		chosen, recvV, recvOk := sched.sel(fr, cases, instr.Blocking)
 		r := tuple{chosen, recvOk}
 		for i, st := range instr.States {
 			if st.Dir == types.RecvOnly {
 				var v value
 				if i == chosen && recvOk {
-					// No need to copy since send makes an unaliased copy.
-					v = recv.Interface().(value)
+					v = recvV
 				} else {
 					v = zero(st.Chan.Type().Underlying().(*types.Chan).Elem())
 				}
@@ -599,6 +580,16 @@ func callSSA(i *interpreter, caller *frame, callpos token.Pos, fn *ssa.Function,
 // After a recovered panic in a function with NRPs, fr.result is
 // undefined and fr.block contains the block at which to resume
 // control.
+var instrTrace = os.Getenv("GOSYM_INSTRTRACE") != ""
+
+func callerName(fr *frame) string {
+	s := ""
+	for c := fr.caller; c != nil && len(s) < 300; c = c.caller {
+		s += " < " + c.fn.Name()
+	}
+	return s
+}
+
 func runFrame(fr *frame) {
 	defer func() {
 		if fr.block == nil {
@@ -610,7 +601,7 @@ func runFrame(fr *frame) {
 		fr.panicking = true
 		fr.panic = recover()
 		switch fr.panic.(type) {
-		case pathAbort, engineLimit:
+		case pathAbort, engineLimit, deadlockPanic:
 			panic(fr.panic) // engine control flow: never visible to target defers
 		}
 		if fr.i.mode&EnableTracing != 0 {
@@ -635,6 +626,9 @@ func runFrame(fr *frame) {
 				}
 			}
 			ex.instrs++
+			if instrTrace && ex.instrs%2000000 == 0 {
+				fmt.Fprintf(os.Stderr, "INSTR %dM in %s (caller %v)\n", ex.instrs/1000000, fr.fn, callerName(fr))
+			}
 			if ex.instrs > ex.MaxInstr {
 				panic(engineLimit{"instruction budget exceeded (unwinding bound)"})
 			}
